@@ -1,6 +1,8 @@
 HOOK_COMMITS = ["d5fe92d", "HEAD~0 (see git log --grep='verif hooks' in /repo)"]
 
 ENGINES = [
+    {"name": "worldx", "path": "harness/worldx", "serves_properties": ["C08", "C09", "C10"],
+     "kind_free_text": "on-disk history explorer: description DSL + reference evaluator + logical clock + deterministic helper command; every history replayed through the real llbuild tool"},
     {"name": "crashx", "path": "harness/crashx", "serves_properties": ["C04"],
      "kind_free_text": "crash-point enumerator: libc write-path interposition in the harness executable, kill before the N-th database call for all N, recovery and continuation oracles"},
     {"name": "schedx", "path": "harness/schedx", "serves_properties": ["C05", "C06", "C16"],
@@ -12,7 +14,7 @@ ENGINES = [
      "kind_free_text": "bounded-exhaustive enumeration of parser inputs in exact-size buffers under AddressSanitizer / guard pages; codec round trips"},
     {"name": "ninjax", "path": "harness/ninjax", "serves_properties": ["C17"],
      "kind_free_text": "bounded-exhaustive manifest grammar, differential against /usr/bin/ninja 1.11.1; shell-quoting round trip through /bin/sh"},
-    {"name": "enginex", "path": "harness/enginex", "serves_properties": ["C01", "C02", "C03", "C05", "C06", "C07"],
+    {"name": "enginex", "path": "harness/enginex", "serves_properties": ["C01", "C02", "C03", "C05", "C06", "C07", "C20"],
      "kind_free_text": "explicit-state breadth-first search over event histories; every transition runs the real BuildEngine (and SQLite BuildDB) "
                        "under a chooser that owns completion order, delivery points and cancellation points; reference evaluator + shadow record as oracles"},
 ]
@@ -70,6 +72,32 @@ TEXT.update({
                     "record is one the engine handed over with the dependency list of the same execution, PRAGMA integrity_check ok) and runs 6 (12) continuation "
                     "histories whose every build must succeed with the clean-build value, including worlds whose output cells the killed build had already rewritten.",
             "note": "Process death only (writes already issued persist); power loss / torn sectors are not claimed by the property."},
+    "C20": {"design_ref": "DESIGN.md §5 C20",
+            "technique": "explicit-state model checking with a twin driver: every history runs through the C++ interface and through the libllbuild C interface, event logs and databases compared",
+            "text": "For every history up to depth 4 (5) over the worlds expressible through core.h (no single-use requests, no signatures), with keys containing NUL, 0xFF "
+                    "and numeric-looking spellings and values wrapped in NUL/0xFF bytes, with and without an attached database (including restarts and a client-version bump), the "
+                    "sequence of client-visible events (rule lookups, create_task, is_result_valid arguments and answers, update_status, start, provide_value(id, bytes), "
+                    "inputs_available, completions, cycle keys, results) and the persisted database must be identical between the two interfaces; the C run is also judged against the reference evaluator.",
+            "note": "The C API offers no cancellation, prior values or single-use requests, so those are outside this check."},
+    "C08": {"design_ref": "DESIGN.md §4.5, §5 C08",
+            "technique": "bounded-exhaustive exploration of edit histories through the real llbuild tool (new process per build) against a reference evaluator cross-checked with clean builds",
+            "text": "27 description families (shell via a deterministic helper, phony, mkdir, symlink; file, virtual, directory-tree and directory-structure nodes; multiple outputs; "
+                    "shared sub-graphs), each with 2-4 description variants: every history up to 3 events (4 for 7 families; thorough 4 resp. 5) of {edit / same-size rewrite a source, "
+                    "delete or overwrite an output, switch description, build a target}, serial and -j4, is replayed from scratch in a fresh sandbox with logical-clock mtimes; after "
+                    "each successful build every output reachable from the target must have the reference content.",
+            "note": "Only observable edits (logical clock); real compilers and timestamps not produced by the clock are outside."},
+    "C09": {"design_ref": "DESIGN.md §5 C09",
+            "technique": "bounded-exhaustive exploration: null builds after every explored history, all single-attribute definition pairs in process and end to end, signatures across processes",
+            "text": "For every history of C08's space an immediate further build in a new process must execute nothing but always-out-of-date commands and a command that ran must have a "
+                    "cause; 71 pairs of shell/phony/mkdir/symlink/node definitions differing in exactly one attribute must have different signatures (in-process getSignature) and "
+                    "re-execute end to end when signature-relevant, not re-execute otherwise; every signature computed in two processes must agree.",
+            "note": "phony commands are invisible in the execution log, so their pairs are judged in process only."},
+    "C10": {"design_ref": "DESIGN.md §5 C10",
+            "technique": "exhaustive enumeration of failing command subsets x failure kinds x failing build index through the real tool, then repair and rebuild",
+            "text": "7 (34) descriptions with up to 4 commands over file, virtual, directory and multi-output edges: every subset of commands is made to fail (exit 1 before/after writing, "
+                    "SIGKILL, missing undeclared input, unwritable output) in build 0..2 of a history, serial and parallel; no consumer of a failed command may run, llbuild must exit "
+                    "non-zero, the next build must retry the failed commands, and after repair the build must converge to the clean-build state; plus SIGINT scenarios with a gated helper.",
+            "note": "Cancellation timing of -j4 runs is real time (one gated command per scenario)."},
     "C11": {"design_ref": "DESIGN.md §5 C11",
             "technique": "bounded-exhaustive enumeration of dependency files (all path strings over the format's special characters x layouts, all truncations) on the real parsers under ASan",
             "text": "All path strings up to length 4 (6 thorough) over {a,' ','#','$','\\',':','/','.'} and pairs of them, rendered with the documented escaping into "
@@ -115,9 +143,6 @@ TEXT.update({
 })
 
 NOT_APPLICABLE = {
-    "C08": "check under construction (worldx on-disk history explorer, DESIGN.md §4.5); not yet registered",
-    "C09": "check under construction (worldx + signature enumerator); not yet registered",
-    "C10": "check under construction (worldx failure-subset enumerator); not yet registered",
     "C11": "check under construction (deps codec enumerator + worldx histories); not yet registered",
     "C12": "check under construction (worldx directory-tree enumerator); not yet registered",
     "C13": "check under construction (file-state pair enumerator enumx); not yet registered",
@@ -127,5 +152,4 @@ NOT_APPLICABLE = {
     "C17": "check under construction (differential enumerator against /usr/bin/ninja); not yet registered",
     "C18": "check under construction (worldx, Ninja rendering); not yet registered",
     "C19": "check under construction (bounded-exhaustive parser inputs under ASan); not yet registered",
-    "C20": "check under construction (C-API twin driver of enginex); not yet registered",
 }
